@@ -14,7 +14,12 @@ import (
 
 // C02 — message content survives byte-for-byte from SMTP DATA to every read interface.
 
-var c02Tokens = []string{"a", ".", "..", ".a", "\r\n", "\n", "\r", "\x00", "\xff\xfe", " ", "LONG"}
+// LONG = one 70000-byte line; LONGDOTS = 9000 dots (a dot at every offset of a long line, in
+// particular at every 4096-byte buffer boundary); P4096 = exactly 4096 bytes without a line end
+// (what follows it starts at a buffer boundary but NOT at a line start).
+var c02Tokens = []string{"a", ".", "..", ".a", "\r\n", "\n", "\r", "\x00", "\xff\xfe", " ", "LONG", "LONGDOTS", "P4096"}
+
+var c02Big = map[string]string{"LONG": strings.Repeat("L", 70000), "LONGDOTS": strings.Repeat(".", 9000), "P4096": strings.Repeat("p", 4096)}
 
 const c02Header = "From: s@o.test\r\nTo: c02@x.test\r\nSubject: c02\r\n\r\n"
 
@@ -51,8 +56,8 @@ func (cas c02Case) body() string {
 		return b.String()
 	}
 	for _, t := range cas.Tokens {
-		if c02Tokens[t] == "LONG" {
-			b.WriteString(strings.Repeat("L", 70000))
+		if big, ok := c02Big[c02Tokens[t]]; ok {
+			b.WriteString(big)
 		} else {
 			b.WriteString(c02Tokens[t])
 		}
@@ -299,7 +304,8 @@ func c02Run(c *fw.Ctx) {
 				}
 				for t := range c02Tokens {
 					l := longs
-					if c02Tokens[t] == "LONG" {
+					if _, big := c02Big[c02Tokens[t]]; big {
+						// at most one big token per body in the quick tier, two in the thorough tier
 						if longs == 2 || (!c.Thorough() && longs == 1) {
 							continue
 						}
